@@ -220,7 +220,14 @@ pub fn install_panic_hook(root: PathBuf) {
         // `PanicHookInfo::can_unwind` is unstable; non-unwinding panics are recognised by their text
         let aborting = payload.starts_with("unsafe precondition(s) violated") || payload.contains("cannot unwind");
         if aborting {
-            // the process is about to abort: attribute it to the current case right now
+            // the process is about to abort: attribute it to the current case right now. Several shards may hit
+            // the same defect at once; only the first one reports, the others wait for the process to die.
+            static ABORTING: AtomicBool = AtomicBool::new(false);
+            if ABORTING.swap(true, Ordering::SeqCst) {
+                loop {
+                    std::thread::sleep(std::time::Duration::from_secs(3600));
+                }
+            }
             let cur = CURRENT.with(|c| c.borrow().clone());
             if let Some((prop, sub, case)) = cur {
                 let root = ROOT.lock().ok().and_then(|r| r.clone()).unwrap_or_else(|| PathBuf::from("/verif"));
